@@ -51,6 +51,11 @@ pub fn programs11() -> Vec<Prog> {
     let pos = p.items.iter().position(|i| matches!(i, Item::Stmt { label: Some(l), .. } if l == "loop")).unwrap();
     p.items.insert(pos + 1, Item::LBreak("mark".into()));
     v.push(Prog::new("labelled-break@3", p, true));
+    // every opcode and output trap, with a labelled `.break` on the first statement: breakpoints
+    // land on loads, a REG trap, stack instructions, a branch and HALT
+    let mut k = every_kind();
+    k.ast.items.insert(0, Item::LBreak("first".into()));
+    v.push(Prog::new("every-instruction-kind", k.ast, true));
     // self-branch that carries a breakpoint, reached after one instruction
     let mut p = Program::default();
     p.push(Some("first"), Stmt::Add(1, 1, Src2::Imm(Lit::dec(1))));
@@ -173,7 +178,7 @@ pub fn run(ctx: &Ctx) -> i32 {
         ctx,
         acc,
         Level { category: "model_checking", bfs: Some((stats.states, stats.transitions, stats.transitions, stats.max_depth)) },
-        "explicit-state BFS over command histories (continue, step, step into {1,3}, step out, reset, goto first, break add/remove in absolute, label+offset and ^offset spelling) on 15 programs: a loop revisiting its body three times with `.break` before the first statement, between any two, on the HALT, after the last statement, doubled, on a labelled statement, with a label of its own, three at once, at a non-default origin; a self-branch under a breakpoint; a breakpoint directly before HALT; a subroutine returning onto a breakpoint. Every transition: product of real debugger and reference (paused machine, instruction count, breakpoint set, sortedness), and `break list` output compared with the set after every breakpoint command and breakpoint pause. non-trivial = agreeing transitions",
+        "explicit-state BFS over command histories (continue, step, step into {1,3}, step out, reset, goto first, break add/remove in absolute, label+offset and ^offset spelling) on 16 programs: a loop revisiting its body three times with `.break` before the first statement, between any two, on the HALT, after the last statement, doubled, on a labelled statement, with a label of its own, three at once, at a non-default origin; a self-branch under a breakpoint; a breakpoint directly before HALT; a subroutine returning onto a breakpoint. Every transition: product of real debugger and reference (paused machine, instruction count, breakpoint set, sortedness), and `break list` output compared with the set after every breakpoint command and breakpoint pause. non-trivial = agreeing transitions",
         !stats.capped,
         &["paused-at-breakpoint", "paused-at-halt", "loop-iteration-repeated", "break-directive-observed", "command-refused"],
         &["reference debugger = DESIGN.md appendix A: the instruction at the resume address executes once, then every arrival at a breakpoint pauses"],
